@@ -78,12 +78,13 @@ def run_case(case):
 def _run_case(case):
     kind = case["kind"]
     obs = {"counters": {}, "viols": [], "key": []}
-    if kind == "instr":
+    if kind in ("instr", "instr_long"):
         s = case["s"]
         calls = []
         for p in case["pats"]:
-            for start in range(1, len(s) + 2):
-                calls.append((start, s, p))
+            for start in (range(1, len(s) + 2) if kind == "instr" else case["starts"]):
+                if start >= 1:
+                    calls.append((start, s, p))
         lines = ["run ecb_instr(%d.0, %s, %s, r(%d))" % (st, q(s0), q(p), i) for i, (st, s0, p) in enumerate(calls)]
         status, res = call_helper(lines, len(calls))
         obs["counters"]["helper_calls_interpreted"] = len(calls)
@@ -192,6 +193,19 @@ def cases(tier, seed):
         s = "".join(rng.choice("XYZ ") for _ in range(rng.randint(5, 12)))
         ps = [s[a:b] for a in range(len(s)) for b in range(a + 1, min(len(s), a + 4) + 1)][:40] + ["Q", "XQ", ""]
         yield {"kind": "instr", "s": s, "pats": ps}
+    # long subjects and patterns (beyond BASIC09's default 32-byte strings: the library is sized 255 here, as -s 255 gives)
+    for i in range(12 if tier == "quick" else 200):
+        n = rng.choice([33, 34, 40, 64, 100, 200, 255])
+        s = "".join(rng.choice("ab") for _ in range(n))
+        ps = []
+        for _ in range(6):
+            a = rng.randrange(0, max(1, n - 33))
+            ln = rng.choice([33, 34, 40, min(60, n - a)])
+            ps.append(s[a:a + ln])
+        ps += [s, s[1:], s[:-1], s + "a", "b" * 33, s[-33:], s[:33]]
+        ps = [p for p in ps if len(p) <= 255]            # the library strings hold 255 characters
+        # starts: a sample, not every position, to keep the batch small
+        yield {"kind": "instr_long", "s": s, "pats": ps, "starts": sorted({1, 2, n // 2, n - 33 if n > 33 else 1, n, n + 1, rng.randint(1, n)})}
     for s in ["A", "B", "AB", "BA", "ABC", "XYZ", " A", "ZZZ"]:
         yield {"kind": "string", "s": s, "counts": list(range(0, 256)), "sample": s == "AB"}
     yield {"kind": "string_err"}
